@@ -351,6 +351,8 @@ def run(ctx, tier, res, tag=''):
                 res.violation(key + tag, text)
             else:
                 res.undec(text)
+    from .. import promises
+    promises.report(ctx, res, sorted(ctx.mod.functions), promises.NULL_KINDS, tag)
     res.rule = ('null world of every accessor/initialiser: empty read and write sets, return 0; identifier worlds: the '
                 'identifier stays symbolic, every world with an effect must be inconsistent with identifier >= MAX '
                 '(interval refutation of its path condition) - otherwise a concrete identifier satisfying the path condition '
